@@ -37,6 +37,21 @@ Proof.
     cbn [sreply_frame]. rewrite replyOverhead_eq. repeat split; try lia; discriminate.
 Qed.
 
+(** *** Rread on an xattr fid: same bound, no panic *)
+Theorem xread_fits m count off vlen :
+  11 <= m ->
+  sreply_frame (txread_handle m count off vlen) <= m /\ txread_handle m count off vlen <> SPanic.
+Proof.
+  intros H. unfold txread_handle. rewrite max_reply_payload_le by assumption. rewrite maxlen_eq.
+  destruct (N.ltb_spec 4194304 count); [cbn [sreply_frame]; rewrite rlerrorFrame_eq; split; [lia|discriminate]|].
+  destruct (N.eqb_spec m 0); [lia|].
+  destruct (N.eqb_spec count 0).
+  { destruct (vlen =? 0); cbn [sreply_frame]; rewrite ?rlerrorFrame_eq, ?replyOverhead_eq; split; try lia; discriminate. }
+  destruct (N.ltb_spec vlen (off + count)); [cbn [sreply_frame]; rewrite rlerrorFrame_eq; split; [lia|discriminate]|].
+  destruct (N.ltb_spec m (N.min count (m - 11))); [lia|].
+  cbn [sreply_frame]. rewrite replyOverhead_eq. split; [lia|discriminate].
+Qed.
+
 Lemma rreaddir_payload_le count : forall sizes cum, cum <= count -> rreaddir_payload count cum sizes <= count.
 Proof.
   induction sizes as [|d r IH]; intros cum H; cbn [rreaddir_payload]; [assumption|].
